@@ -129,6 +129,21 @@ def canon_inner(e):
     return e
 
 
+def exc_details(e):
+    """class name, args and whether the traceback (live, or as remote text) shows the failure site"""
+    import traceback
+
+    from mpservice.multiprocessing.remote_exception import get_remote_traceback, is_remote_exception
+    try:
+        text = ''.join(traceback.format_exception(type(e), e, e.__traceback__))
+    except Exception:  # noqa
+        text = ''
+    if is_remote_exception(e):
+        text += get_remote_traceback(e)
+    return {'cls': type(e).__name__, 'args': [a if isinstance(a, (int, str)) else repr(a)[:40] for a in e.args[:1]],
+            'site': ('in call' in text) or ('in _pre' in text), 'nframes': text.count('File "')}
+
+
 def jsonable(c):
     if isinstance(c, tuple):
         return [jsonable(x) for x in c]
@@ -292,6 +307,7 @@ def run_stack(cfg, strategy, max_steps=60000):
                             info['results'][str(x)] = ['rejected']
                         except BaseException as e:  # noqa
                             info['results'][str(x)] = jsonable(canon(e))
+                            info.setdefault('exc_details', {})[str(x)] = exc_details(e)
                 ts = [threading.Thread(target=caller, args=(i,), name=f'caller-{i}') for i in range(len(cfg['callers']))]
                 for t in ts:
                     t.start()
